@@ -57,7 +57,8 @@ EdPubChecks(e) ==
                     <<"out = canonical (1+y)/(1-y), 0 when y = 1", ToBytes(MontU(y, inv), 32), e.out>> >>
             ELSE << >>)
 
-EdPrivChecks(e) == << <<"converted private key = clamp(SHA-512(seed)[0..31])", ClampBytes32(e.hs), e.out>> >>
+EdPrivChecks(e) == << <<"converted private key = clamp(SHA-512(seed)[0..31])", ClampBytes32(e.hs), e.out>>,
+                      <<"the key object is unchanged by the conversion", TRUE, e.keyIntact>> >>
 
 \* ---- X25519 ----
 AllZero(bs) == \A i \in 1..Len(bs) : bs[i] = 0
